@@ -298,16 +298,13 @@ func (m *VM) step(i int, op *Op) *Rec {
 				var bld biscuit.Builder
 				switch {
 				case len(op.Base) > 0 && op.RootID != nil && i%2 == 0: // options in another order
-					st := datalog.SymbolTable(append([]string{}, op.Base...))
-					bld = biscuit.NewBuilder(k.Priv, biscuit.WithSymbols(&st), biscuit.WithRootKeyID(*op.RootID), biscuit.WithRNG(rd))
+					bld = biscuit.NewBuilder(k.Priv, symbolsOption(m, op.Base, biscuit.WithSymbols), biscuit.WithRootKeyID(*op.RootID), biscuit.WithRNG(rd))
 				case len(op.Base) > 0 && op.RootID != nil:
-					st := datalog.SymbolTable(append([]string{}, op.Base...))
-					bld = biscuit.NewBuilder(k.Priv, biscuit.WithRNG(rd), biscuit.WithRootKeyID(*op.RootID), biscuit.WithSymbols(&st))
+					bld = biscuit.NewBuilder(k.Priv, biscuit.WithRNG(rd), biscuit.WithRootKeyID(*op.RootID), symbolsOption(m, op.Base, biscuit.WithSymbols))
 				case op.RootID != nil && i%2 == 0:
 					bld = biscuit.NewBuilder(k.Priv, biscuit.WithRootKeyID(*op.RootID), biscuit.WithRNG(rd))
 				case len(op.Base) > 0:
-					st := datalog.SymbolTable(append([]string{}, op.Base...))
-					bld = biscuit.NewBuilder(k.Priv, biscuit.WithRNG(rd), biscuit.WithSymbols(&st))
+					bld = biscuit.NewBuilder(k.Priv, biscuit.WithRNG(rd), symbolsOption(m, op.Base, biscuit.WithSymbols))
 				case op.RootID != nil:
 					bld = biscuit.NewBuilder(k.Priv, biscuit.WithRNG(rd), biscuit.WithRootKeyID(*op.RootID))
 				default:
@@ -928,6 +925,20 @@ func callerReader(rnd *SimRand, e *Entropy) io.Reader {
 		}
 	}
 	return rnd
+}
+
+// symbolsOption: an issuer makes its WithSymbols option once per agreed base table and passes the
+// same option value to every builder it creates (the table behind it stays the issuer's).
+func symbolsOption[T any](m *VM, base []string, mk func(*datalog.SymbolTable) T) T {
+	key := "symbols-option:" + strings.Join(base, "\x00")
+	if o, ok := m.Ext[key].(T); ok {
+		m.Probe("symbols_option_reused")
+		return o
+	}
+	st := datalog.SymbolTable(append([]string{}, base...))
+	o := mk(&st)
+	m.Ext[key] = o
+	return o
 }
 
 type readerFunc func([]byte) (int, error)
